@@ -6783,6 +6783,7 @@ handlers = {
     'BSC_write': handle_write,
     'BSC_open': handle_open,
     'BSC_sys_close': handle_sys_close,
+    'BSC_wait4': handle_wait4,
     'BSC_link': handle_link,
     'BSC_unlink': handle_unlink,
     'BSC_chdir': handle_chdir,
